@@ -1,11 +1,10 @@
 (* Proofs/BatchRowProofs.v -- C03 composed: the plan layer (Proofs/ScanProjProofs.v) instantiated
-   with the evaluator twins through the expression layer (Proofs/EvalVecProofs.v), and the LIMIT
-   node (Proofs/LimitProofs.v) on top. *)
+   with the evaluator twins through the expression layer (Proofs/EvalVecProofs.v).  The LIMIT node
+   on top is in Proofs/LimitLazyProofs.v. *)
 From Coq Require Import List String ZArith Bool Arith Lia.
 Import ListNotations.
 From KV Require Import Base.Bytes Model.Ast Model.Value Model.Eval Model.EvalVec Model.ScanProj
                        Proofs.EvalVecProofs Proofs.ScanProjProofs.
-From KV Require Model.Limit Proofs.LimitProofs.
 Local Open Scope nat_scope.
 Local Open Scope list_scope.
 
@@ -137,33 +136,6 @@ Proof.
   destruct (T Hstar B slots outs HB H) as (rows' & Er' & F' & _).
   rewrite Er in Er'. inversion Er'; subst rows'.
   clear - F'. induction F'; [reflexivity | congruence].
-Qed.
-
-(* ---------------------------------------------------------------- LIMIT on top (FinalLimitPlan) *)
-(* PARTIAL.  Full statement (not proved):
-     forall statement with LIMIT s, n: if the batch drain of FinalLimitPlan(Projection(Scan))
-     completes without error then so does the row drain, with the same rows --
-   where the child is pulled lazily, so that a pair on which the filter or a field fails is
-   harmless in either mode if the limit is reached before it.
-   Proved here: the case in which the child's complete batch drain succeeds (no failing pair in
-   the scanned stream, e.g. every statement that also runs without its LIMIT clause).  Then the
-   LIMIT node, in both modes and for every batch size, returns the same slice of rows. *)
-Theorem select_limit_batch_row_agree_partial B start count wh fields slots outs :
-  1 <= B -> fields_ok fields ->
-  select_batch fo re_match B wh fields slots = Ok outs ->
-  exists louts rows lrows,
-    Limit.drain_batch true B start count outs = Some louts /\
-    select_row fo re_match wh fields slots = Ok rows /\
-    Limit.drain_row start count rows = Some lrows /\
-    Forall2 same_content lrows (List.concat louts).
-Proof.
-  intros HB Hok H.
-  destruct (select_batch_row_agree B wh fields slots outs HB Hok H) as (rows & Er & F & Ne).
-  destruct (LimitProofs.drain_batch_slice B start count (bs := outs)) as (louts & E1 & E2 & _).
-  { eapply Forall_impl; [|exact Ne]. intros a Ha. exact Ha. }
-  exists louts, rows, (firstn count (skipn start rows)). repeat split; auto.
-  - apply LimitProofs.drain_row_slice.
-  - rewrite E2. apply Forall2_firstn, Forall2_skipn. exact F.
 Qed.
 
 End Select.
